@@ -24,6 +24,18 @@ CLAIMED = {
         note=TB + 'Closed under the global context (no axioms). Guard: ASCII digits only for str.isdigit; '
              'names without parentheses, non-empty, not all digits.',
         technique='Coq proof of model (round-trip + injectivity via parse as left inverse) + vm_compute correspondence'),
+    'C01': dict(
+        text='Machine-checked proof (Coq, over the reals) about the executable model of GroupLibrary.Estimate and '
+             'ThermochemGroupAdditive.get_*: the estimate is the count-weighted sum with the union of warnings, raises exactly '
+             'when a constituent raises (first in mapping order), is permutation-invariant, G=H-S, and the missing-data error names '
+             'exactly the descriptors lacking the property set (never a partial sum); for all mappings, libraries, temperatures. '
+             'Tie: the same Gallina term is executed over exact rationals against the implementation on generated cases; direct '
+             'oracle on all unit vectors of all nine shipped and synthetic libraries plus random mappings.',
+        design='5 / C01',
+        note=TB + 'Axioms: the standard library real-number axioms (ClassicalDedekindReals.sig_forall_dec, sig_not_dec, '
+             'FunctionalExtensionality.functional_extensionality_dep) as printed. Constituent correlation values are '
+             'taken from the implementation (C05 covers them). Float sums compared at 1e-11 relative tolerance.',
+        technique='Coq proof over R of a fold model + vm_compute correspondence over Q + direct oracle'),
 }
 
 PENDING_REASON = 'check not built yet in this round (design in DESIGN.md section 5); not claimed until it runs'
